@@ -465,11 +465,20 @@ def fmt(s):
     return "{" + ", ".join(f"{k}={v}" for k, v in s.items() if k in ("P", "Q", "E", "p", "q", "Wt", "q1", "q2")) + "}"
 
 
+def check_symbols_minute_major(repo, rep):
+    """'at every point of a futures session' with several symbols sharing one wallet: the unrealised PnL of the OTHER symbols that
+    enters the available margin at a fill must be priced at that minute; the fast simulator replays a whole chunk per symbol, so the
+    other symbol is already priced at the chunk's last close (the construct decided by C02-R7)"""
+    from props.c02 import check_symbol_interleaving
+    check_symbol_interleaving(repo, rep, rid="C03-R7")
+
+
 def run(repo: Repo, rep, tier: str):
     rep.exhaustive = True
     rep.assume("backtest mode; sum_floats/subtract_floats modelled as exact + and -; magnitudes, prices, fee, leverage are non-negative reals")
     rep.assume("row matching in the margin tables (np.where(np.all(array == row))) is modelled on exact values: float drift of stored rows is not modelled")
     rep.guarded(check_fills, repo, rep)
+    rep.guarded(check_symbols_minute_major, repo, rep)
     rep.guarded(check_qty_update, repo, rep)
     rep.guarded(check_fee, repo, rep)
     from props.c04 import check_update_qty_decimal
